@@ -162,6 +162,7 @@ func verifC02Init() {
 		{name: "set1", keyset: 1, body: []byte(set1)},
 		{name: "set2", keyset: 2, body: []byte(set2)},
 		{name: "empty", keyset: 3, body: []byte(`{"keys":[]}`)},
+		{name: "rsaonly", keyset: 4, body: []byte(verifC02JWKS(nil, w.rsaK))}, // k1 removed
 		{name: "notjson", body: []byte(`this is not json`)},
 		{name: "notjwks", body: []byte(`{"keys":5}`)},
 		{name: "badkey", body: []byte(`{"keys":[{"kty":"EC","crv":"P-256","kid":"k1","x":"AA","y":"AA"}]}`)},
@@ -503,7 +504,7 @@ func verifC02Verdicts(tok, iss, aud string) string {
 		opts = append(opts, jwt.WithAudience(aud))
 	}
 	var l []string
-	for _, ks := range []int{1, 2, 3} {
+	for _, ks := range []int{1, 2, 3, 4} {
 		var rc jwt.RegisteredClaims
 		_, err := jwt.NewParser(opts...).ParseWithClaims(tok, &rc, w.kf[ks].Keyfunc)
 		if err != nil {
@@ -877,8 +878,123 @@ func verifC02ServeOp(name string) string {
 	return fmt.Sprintf("serve %d %d %s %s", d.keyset, d.vend, p, d.name)
 }
 
+// Histories aimed at state that must NOT survive a JWKS change: the very same (unexpired, valid) token
+// string is presented before and after the endpoint drops / replaces / empties its keys, with a refresh
+// in between; and the same token is presented for other actions/paths than the ones its claim grants.
+func verifC02Rotation(r *verifutil.Rand, thorough bool) []string {
+	c := &verifC02Cfg{method: "j", inq: r.Pick("0", "1"), claim: r.Pick("mediamtx_permissions", "perms"),
+		iss: r.Pick("", "issuer1"), aud: r.Pick("", "aud1")}
+	if r.Chance(1, 4) {
+		c.excl = verifC02Perms(r, 1, nil)
+	}
+	ops := []string{fmt.Sprintf("reset %s %s %s %s %s %s", c.method, verifC02EncPerms(c.excl, ":", "+"), c.inq,
+		verifutil.HexS(c.claim), verifutil.HexS(c.iss), verifutil.HexS(c.aud))}
+
+	// the token: valid under exactly the key sets that hold its key
+	signer, kid, alg := "A", "k1", "ES256"
+	home := []string{"set1", "set1", "set1-limit", "set1-404"}
+	away := []string{"set2", "set2-trailing", "empty", "rsaonly", "rsaonly", "notjson", "drop", "set1-limit+1"}
+	switch r.Intn(5) {
+	case 0:
+		signer = "B"
+		home = []string{"set2", "set2-trailing"}
+		away = []string{"set1", "set1-limit", "empty", "rsaonly", "notjwks", "drop"}
+	case 1:
+		signer, kid, alg = "R", "r1", "RS256"
+		home = []string{"set1", "set2", "rsaonly"}
+		away = []string{"empty", "empty", "badkey", "drop", "html404"}
+	}
+	action := verifC02Actions[r.Intn(6)]
+	path := r.Pick("cam1", "cam2", "dir/cam1", "live")
+	perms := []conf.AuthInternalUserPermission{{Action: conf.AuthAction(action), Path: r.Pick("", path, path, "~^(cam|dir|live)")}}
+	if r.Bool() {
+		perms = append(perms, verifC02Perms(r, 1, nil)...)
+	}
+	arr, _ := json.Marshal(perms)
+	claimVal := string(arr)
+	if r.Chance(1, 3) {
+		sv, _ := json.Marshal(string(arr))
+		claimVal = string(sv)
+	}
+	fields := []string{`"exp":4102444800`, `"sub":"` + r.Pick("bob", "alice", "svc-1") + `"`, `"` + c.claim + `":` + claimVal}
+	if c.iss != "" || r.Bool() {
+		fields = append(fields, `"iss":"`+r.Pick(c.iss, c.iss, "issuer1")+`"`)
+	}
+	if c.aud != "" {
+		fields = append(fields, `"aud":"`+c.aud+`"`)
+	}
+	tok := verifC02Sign(`{"alg":"`+alg+`","typ":"JWT","kid":"`+kid+`"}`, "{"+strings.Join(fields, ",")+"}", signer)
+
+	mk := func(action, path string) *verifC02Req {
+		q := &verifC02Req{action: action, path: path, proto: r.Pick("rtsp", "rtmp", "rtsp", "hls", "webrtc"),
+			ua: "ffmpeg", ask: r.Bool(), status: "200", ip: []byte{10, 0, 0, byte(r.Intn(250))}}
+		switch r.Intn(4) {
+		case 0:
+			q.pass = tok
+		case 1:
+			q.query = r.Pick("token=", "jwt=") + tok
+			q.proto = r.Pick("rtsp", "rtmp")
+		default:
+			q.token = tok
+		}
+		return q
+	}
+	q := mk(action, path)
+	otherAP := func() *verifC02Req { // same token, different action/path
+		a, p := action, path
+		if r.Bool() {
+			a = verifC02Actions[r.Intn(6)]
+		}
+		if r.Bool() {
+			p = r.Pick("cam1", "cam2", "dir/cam1", "live", "zzz")
+		}
+		o := *q
+		o.action, o.path = a, p
+		return &o
+	}
+
+	ops = append(ops, verifC02ServeOp(home[r.Intn(len(home))]), verifC02AuthOp(c, q))
+	if r.Bool() {
+		ops = append(ops, verifC02AuthOp(c, q)) // same token again, nothing changed
+	}
+	if r.Bool() {
+		ops = append(ops, verifC02AuthOp(c, otherAP()))
+	}
+	rounds := 2 + r.Intn(3)
+	if thorough {
+		rounds = 2 + r.Intn(6)
+	}
+	for k := 0; k < rounds; k++ {
+		docs := away
+		if k%2 == 1 || r.Chance(1, 5) {
+			docs = home
+		}
+		ops = append(ops, verifC02ServeOp(docs[r.Intn(len(docs))]))
+		if r.Chance(1, 3) { // not refreshed yet: the loaded keys legitimately keep being used
+			ops = append(ops, verifC02AuthOp(c, q))
+		}
+		if !r.Chance(1, 6) {
+			ops = append(ops, "refresh")
+		}
+		ops = append(ops, verifC02AuthOp(c, q)) // the SAME token after the change
+		if r.Chance(1, 2) {
+			ops = append(ops, verifC02AuthOp(c, otherAP()))
+		}
+		if r.Chance(1, 3) {
+			ops = append(ops, verifC02AuthOp(c, mk(action, path))) // same token, other placement
+		}
+		if r.Chance(1, 4) {
+			ops = append(ops, verifC02Request(r, c)) // an unrelated request in between
+		}
+	}
+	return ops
+}
+
 func verifC02Gen(r *verifutil.Rand, i int, thorough bool) []string {
 	verifC02.once.Do(verifC02Init)
+	if i%3 == 2 {
+		return verifC02Rotation(r, thorough)
+	}
 	c := &verifC02Cfg{method: "h", inq: "0"}
 	if i%3 != 0 {
 		c.method = "j"
@@ -897,7 +1013,7 @@ func verifC02Gen(r *verifutil.Rand, i int, thorough bool) []string {
 	}
 	ops := []string{fmt.Sprintf("reset %s %s %s %s %s %s", c.method, verifC02EncPerms(c.excl, ":", "+"), c.inq,
 		verifutil.HexS(c.claim), verifutil.HexS(c.iss), verifutil.HexS(c.aud))}
-	good := []string{"set1", "set1", "set1", "set2", "set1-limit", "set2-trailing", "set1-404", "empty"}
+	good := []string{"set1", "set1", "set1", "set2", "set1-limit", "set2-trailing", "set1-404", "empty", "rsaonly"}
 	bad := []string{"notjson", "notjwks", "badkey", "html404", "set1-limit+1", "set2-big", "drop"}
 	pickDoc := func() string {
 		if r.Chance(1, 4) {
@@ -912,6 +1028,7 @@ func verifC02Gen(r *verifutil.Rand, i int, thorough bool) []string {
 	if thorough {
 		n = 3 + r.Intn(10)
 	}
+	var prev []string
 	for k := 0; k < n; k++ {
 		if c.method == "j" && r.Chance(1, 5) {
 			ops = append(ops, verifC02ServeOp(pickDoc()))
@@ -919,7 +1036,23 @@ func verifC02Gen(r *verifutil.Rand, i int, thorough bool) []string {
 		if c.method == "j" && r.Chance(1, 6) {
 			ops = append(ops, "refresh")
 		}
-		ops = append(ops, verifC02Request(r, c))
+		if len(prev) != 0 && r.Chance(1, 5) { // an earlier request (same token string) again
+			o := prev[r.Intn(len(prev))]
+			if f := strings.Fields(o); c.method == "h" && r.Bool() {
+				// same request, but the authority has changed its mind
+				if f[15] == "200" {
+					f[15] = r.Pick("401", "403", "x", "300")
+				} else {
+					f[15] = "200"
+				}
+				o = strings.Join(f, " ")
+			}
+			ops = append(ops, o)
+			continue
+		}
+		o := verifC02Request(r, c)
+		prev = append(prev, o)
+		ops = append(ops, o)
 	}
 	return ops
 }
